@@ -670,7 +670,7 @@ def b_isinstance(ex, st, args, kwargs, node):
         if isinstance(x, VConst):
             return x.obj
         nm = getattr(x, "name", None)
-        m = {"str": str, "int": int, "bool": bool, "tuple": tuple, "list": list, "type": type}
+        m = {"str": str, "int": int, "bool": bool, "tuple": tuple, "list": list, "type": type, "bytes": bytes}
         if nm in m:
             return m[nm]
         raise Unsupported(f"isinstance against {x!r}")
